@@ -51,9 +51,22 @@ def rename_text(lines):
     return "".join("CONFIG_%s %sCONFIG_%s\n" % (o, "!" if inv else "", n) for o, n, inv in lines)
 
 
-def observe(run, kconf, names, info, lines, tab, first=0):
+PREV_EXTRA = """
+config ZZ_GONE
+    bool "an option the previous build still had"
+    default y
+
+config ZZ_GONE_S
+    string "another one"
+    default "s"
+"""
+
+
+def observe(run, kconf, names, info, lines, tab, first=0, prev=None):
     """All five outputs of the instance as it is.  `first` rotates which generator runs first (and therefore has to
-    evaluate the options itself instead of finding the values another generator left cached)."""
+    evaluate the options itself instead of finding the values another generator left cached).  `prev`: a function that
+    fills the dependency directory the way the previous build left it (same configuration, a tree that still had
+    two more options), or None for a fresh directory."""
     import kconfgen.core as kg
 
     d = run.scratch
@@ -80,6 +93,8 @@ def observe(run, kconf, names, info, lines, tab, first=0):
 
     def g_ac():
         dd_ = os.path.join(d, "c07_deps")
+        if prev is not None:
+            prev(dd_)
         kconf.sync_deps(dd_)
         with open(os.path.join(dd_, "auto.conf")) as f:
             got["ac"] = dict(re.findall(r"^CONFIG_(\w+)=(.*)$", f.read(), re.M))
@@ -112,6 +127,13 @@ def observe(run, kconf, names, info, lines, tab, first=0):
 
     shutil.rmtree(dd, ignore_errors=True)
     os.unlink(p)
+    # names no output may carry: anything that is neither a defined option nor an alias of the rename table
+    known = set(names) | {o for o, _n, _i in lines}
+    extra = {
+        "sdkconfig": sorted(set(sdk) - known), "header": sorted(set(hdr) - known), "cmake": sorted(set(cm) - known),
+        "json": sorted(set(js) - known), "auto.conf": sorted(set(ac) - known),
+    }
+    got["extra"] = {k_: v_ for k_, v_ in extra.items() if v_}
     opts = []
     for n in names:
         t = info[n]["type"]
@@ -204,7 +226,7 @@ def observe(run, kconf, names, info, lines, tab, first=0):
         else:
             a_c = ABSENT
         aliases.append([old, a_s, a_h, a_c])
-    return {"opts": opts, "aliases": aliases}
+    return {"opts": opts, "aliases": aliases, "extra": got["extra"]}
 
 
 def rename_tables(prog):
@@ -242,6 +264,7 @@ def main(run):
         cap = 150
     items = lat + gen
     cases, total = [], 0
+    bad_presence = []
     strings = set()
     for it in items:
         ktree.strings_of(it["prog"], strings)
@@ -260,6 +283,8 @@ def main(run):
         if tier == "quick":
             tabs = tabs[k % 2 :: 2] or tabs
         for lines in tabs:
+            # the previous build of the same project: two more options in the tree, same rename file
+            kprev = kc.build(text + PREV_EXTRA, run.scratch, renames=rename_text(lines))
             kconf = kc.build(text, run.scratch, renames=rename_text(lines))
             outs = []
             err = None
@@ -271,13 +296,29 @@ def main(run):
                     for s_ in kconf.unique_defined_syms:
                         s_.str_value
                 evalcheck.apply_assignment(kconf, info, vars_, asg)
+                prev = None
+                if ai % 2 == 0:  # every other configuration: the dependency directory is the previous build's
+
+                    def prev(dd_, asg=asg):
+                        evalcheck.apply_assignment(kprev, info, vars_, asg)
+                        kprev.sync_deps(dd_)
+
                 try:
-                    outs.append(observe(run, kconf, names, info, lines, tab, first=ai))
+                    outs.append(observe(run, kconf, names, info, lines, tab, first=ai, prev=prev))
+                    if outs[-1]["extra"]:
+                        run.report(
+                            "an output names options that are not defined (P-SamePresence): %s under %s (%s dependency directory)" % (outs[-1]["extra"], {k_: v_ for k_, v_ in asg.items() if v_ != ktree.NOVAL}, "reused" if prev else "fresh"),
+                            {"kconfig": text, "renames": lines, "assignment": asg, "undefined_names_per_output": outs[-1]["extra"], "previous_build_tree": (text + PREV_EXTRA) if prev else None},
+                            {"P-SamePresence"} | set(outs[-1]["extra"]),
+                        )
+                        bad_presence.append(1)
+                    outs[-1].pop("extra")
                 except Exception as e:
                     err = (asg, "%s: %s" % (type(e).__name__, str(e)[:200]))
                     break
                 total += 1
             kc.reset_report(kconf)
+            kc.reset_report(kprev)
             if err:
                 run.report("a generator raised %s under %s" % (err[1], err[0]), {"kconfig": text, "renames": lines, "assignment": err[0], "exception": err[1]}, {"exception"})
                 continue
@@ -314,9 +355,10 @@ def main(run):
                 {"kconfig": case["text"], "renames": case["renames"], "assignment": asg, "clause": tag, "expected_or_missing": a, "observed_or_extra": bb},
                 tags,
             )
-    run.cov["traces_validated_against_impl"] = total - len(bad)
+    run.cov["traces_validated_against_impl"] = total - len(bad) - len(bad_presence)
     run.cov["distinct_nontrivial"] = total
     run.cov["programs"] = len(cases)
+    run.cov["reused_dependency_directory"] = "every other configuration: the directory holds the previous build's sync (same configuration, tree with two more options)"
     run.cov["exhaustive"] = True
     run.cov["rule"] = (
         "each (program, rename table) pair x all assignments (capped): programs from the F-prec / F-choice lattices and generated; rename "
